@@ -179,8 +179,42 @@ def reuse(job):
             cs = dom + leaf.conds()
             job.prove(tag + "/like_named_component_gets_its_own_factor", cs, lift(second.value) != v.t * factor(a, Mb) / factor(b, Mb), R, inputs,
                       fallback=[{"v": 1.0, "M": 18.02, "k": 2.0}])
+            pass
+        # ... and a conversion that needs a component is still rejected without one afterwards
+        def run_reject(a=a, b=b):
+            build.perm(v, a).convert(b, ca)
+            return build.perm(v, a).convert(b, None)
+
+        for leaf in job.explore(run_reject, dom):
+            if leaf.kind == "raised" and isinstance(leaf.value, (ValueError, KeyError)):
+                job.record(tag + "/still_rejected_without_a_component", "discharged", "raises %s" % type(leaf.value).__name__)
+            else:
+                job.prove(tag + "/still_rejected_without_a_component", dom + leaf.pc, z3.BoolVal(True), "vf.props.C14:concrete_reject_after", inputs)
+        for leaf in job.explore(run, dom):
+            if leaf.kind != "returned":
+                continue
+            first, second, again = leaf.value
+            cs = dom + leaf.conds()
             job.prove(tag + "/first_component_again", cs, z3.Or(lift(first.value) != v.t * factor(a, Ma) / factor(b, Ma), lift(again.value) != lift(first.value)), R, inputs,
                       fallback=[{"v": 1.0, "M": 18.02, "k": 2.0}])
+
+
+def concrete_reject_after(inp):
+    """a conversion from / to kg/(m2 h kPa) without a component is rejected also when earlier conversions in the same interpreter had one"""
+    v = inp.get("v")
+    if v is None or not v >= 0:
+        v = 1.0
+    bad = []
+    c = _fcomp(18.02)
+    for a, b in ((Units.kg_m2_h_kPa, Units.SI), (Units.SI, Units.kg_m2_h_kPa), (Units.GPU, Units.kg_m2_h_kPa), (Units.kg_m2_h_kPa, Units.GPU)):
+        Permeance(v, Units.kg_m2_h_kPa).convert(Units.SI, c)
+        Permeance(v, Units.GPU).convert(Units.kg_m2_h_kPa, c)
+        try:
+            r = Permeance(v, a).convert(b)
+            bad.append("%s->%s without a component, after conversions that had one, returned %r" % (SHORT[a], SHORT[b], r.value))
+        except (ValueError, KeyError):
+            pass
+    return {"ok": not bad, "detail": "; ".join(bad[:3]), "inputs": inp}
 
 
 def rejections(job):
